@@ -143,6 +143,11 @@ def _c04f_check(reg, case):
             return "json back-end: generator state differs"
     with e2e.tmp_folder() as d:
         sargs = args[:15] + args[17:]
+        # the folder already holds an earlier (different) checkpoint: load must return the LATEST saved state
+        earlier = list(sargs)
+        earlier[11], earlier[14] = "earlier-model", 1
+        earlier[15:] = [a[:3] for a in sargs[15:]]
+        sq.save_calibrator_state(d, *earlier)
         sq.save_calibrator_state(d, *sargs)
         out = sq.load_calibrator_state(d)
         for k, (x, y) in enumerate(zip(sargs, out)):
@@ -180,8 +185,9 @@ def _c04c_check(reg, case):
     with e2e.tmp_folder() as d, warnings.catch_warnings():
         warnings.simplefilter("ignore")
         if case["prior"].startswith("other-run"):
-            other = {"lineup": [("random", 3)], "E": case["E"], "seed": 999, "folder": d, "dims": 2}
-            oc, *_ = e2e.make_calibrator(other, model=e2e.pure_model)
+            from black_it.loss_functions.minkowski import MinkowskiLoss
+            other = {"lineup": [("random", 3), ("rseq", 1)], "E": case["E"], "seed": 999, "folder": d, "dims": 2}
+            oc, *_ = e2e.make_calibrator(other, model=e2e.pure_model, loss=MinkowskiLoss(p=1, coordinate_weights=np.array([2.0])))
             with e2e.quiet():
                 oc.calibrate(4 if "longer" in case["prior"] else 1)
         cfg = dict(case)
@@ -194,11 +200,17 @@ def _c04c_check(reg, case):
                 cal.calibrate(case["batches"])
             cal.create_checkpoint(d)
             r = Calibrator.restore_from_checkpoint(d, model=e2e.pure_model)
+        msgs = []
         msg = compare_calibrators(cal, r)
+        if msg and "series_samp" in msg and case["prior"].startswith("other-run"):
+            msgs.append("[stale-series-file] " + msg)
+            # known limitation: keep looking at everything else with the series put aside
+            r.series_samp = cal.series_samp
+            msg = compare_calibrators(cal, r)
         if msg:
-            if "series_samp" in msg and case["prior"].startswith("other-run"):
-                msg = "[stale-series-file] " + msg
-            return f"{msg} (line-up {case['lineup']}, {case['batches']} batches, folder held: {case['prior']})"
+            msgs.insert(0, msg)
+        if msgs:
+            return f"{msgs[0]} (line-up {case['lineup']}, {case['batches']} batches, folder held: {case['prior']})"
     return None
 
 
@@ -246,6 +258,12 @@ def _c06_cases(tier, seed):
             yield {"backend": "json", "effect": eff, "mode": mode}
     for stmt in ("user_version", "ddl", "adapter", "insert", "commit"):
         yield {"backend": "sqlite", "effect": stmt, "mode": "raise"}
+    # fault SEQUENCES: an interrupted save followed by a complete one must restore exactly the latest state
+    for eff in ("json", "sched", "loss", "csv", "h5"):
+        yield {"backend": "json", "effect": eff, "mode": "raise-before", "then_complete": True}
+    # a large previous checkpoint (several MB, beyond SQLite's page cache) and a process that DIES inside the save
+    yield {"backend": "sqlite", "effect": "adapter", "mode": "raise", "big": True}
+    yield {"backend": "sqlite", "effect": "adapter", "mode": "die", "big": True}
 
 
 def _snapshot(cal):
@@ -342,6 +360,18 @@ def _c06_check(reg, case):
         finally:
             _json.dump, pickle.dump, pd.DataFrame.to_csv, h5py.File = orig["json"], orig["pickle"], orig["csv"], orig["h5"]
             jp.json.dump, jp.pickle.dump, jp.h5py.File = orig["json"], orig["pickle"], orig["h5"]
+        if case.get("then_complete"):
+            with e2e.quiet():
+                cal.create_checkpoint(d)          # the next, complete, save of the current state
+            with e2e.quiet():
+                r = Calibrator.restore_from_checkpoint(d, model=e2e.pure_model)
+            got = _snapshot(r)
+            if not _snap_equal(got, new):
+                lens = [len(got[k]) for k in ATTRS]
+                return (f"a complete save after a save interrupted at {eff} does not restore the saved state: counters "
+                        f"n={got['n_sampled_params']} batch={got['current_batch_index']} record lengths {lens}, saved "
+                        f"n={new['n_sampled_params']}")
+            return None
         try:
             with e2e.quiet():
                 r = Calibrator.restore_from_checkpoint(d, model=e2e.pure_model)
@@ -362,10 +392,17 @@ def _c06_sqlite(case):
     from black_it.utils import sqlite3_checkpointing as sq
     rng_state = np.random.default_rng(1).bit_generator.state
 
+    big = case.get("big")
+
     def args(n, tag):
+        series = np.zeros((n, 2, 3, 1))
+        if big:   # incompressible, several MB
+            series = np.random.default_rng(n).normal(size=(n, 2, 200000 if n == 2 else 3, 1))
         return [np.array([[0.0], [1.0]]), np.array([0.1]), np.ones((3, 1)), 2, 3, 1, 3, True, "f", 7, rng_state, tag,
-                {"s": n}, {"l": n}, n, np.full((n, 1), 0.5), np.arange(n, dtype=float), np.zeros((n, 2, 3, 1)),
+                {"s": n}, {"l": n}, n, np.full((n, 1), 0.5), np.arange(n, dtype=float), series,
                 np.arange(n), np.arange(n) % 2]
+    if case["mode"] == "die":
+        return _c06_sqlite_die(args)
     with e2e.tmp_folder() as d:
         sq.save_calibrator_state(d, *args(2, "old"))
         eff = case["effect"]
@@ -434,11 +471,53 @@ def _c06_sqlite(case):
     return None
 
 
+def _c06_sqlite_die(args):
+    """The writing PROCESS dies (os._exit) inside the INSERT of the second save; the previous checkpoint must load."""
+    import subprocess
+    import sys as _sys
+    import textwrap
+
+    from black_it.utils import sqlite3_checkpointing as sq
+    with e2e.tmp_folder() as d:
+        sq.save_calibrator_state(d, *args(2, "old"))
+        code = textwrap.dedent(f"""
+            import os, sys, sqlite3
+            sys.path.insert(0, {os.environ.get('PYVC_REPO', '/repo')!r})
+            import numpy as np
+            from black_it.utils import sqlite3_checkpointing as sq
+            calls = [0]
+            orig = sq.npndarray_to_sqlite_binary
+            def dying(a):
+                calls[0] += 1
+                if calls[0] >= 4:
+                    os._exit(9)
+                return orig(a)
+            sqlite3.register_adapter(np.ndarray, dying)
+            rng_state = np.random.default_rng(1).bit_generator.state
+            n = 4
+            sq.save_calibrator_state({d!r}, np.array([[0.0], [1.0]]), np.array([0.1]), np.ones((3, 1)), 2, 3, 1, 3, True,
+                "f", 7, rng_state, "new", {{"s": n}}, {{"l": n}}, n, np.full((n, 1), 0.5), np.arange(n, dtype=float),
+                np.zeros((n, 2, 3, 1)), np.arange(n), np.arange(n) % 2)
+        """)
+        rc = subprocess.run([_sys.executable, "-c", code], capture_output=True, text=True, timeout=120).returncode
+        if rc != 9:
+            return None   # the child did not die where intended: nothing to judge
+        try:
+            out = sq.load_calibrator_state(d)
+        except Exception as e:  # noqa: BLE001
+            return f"after the writing process died inside a save the previous checkpoint cannot be loaded: {type(e).__name__}: {e}"
+        if out[11] != "old" or out[14] != 2:
+            return f"after the writing process died the table holds model={out[11]!r}, batch={out[14]!r}"
+    return None
+
+
 StandIn("C06/interrupted-save", "C06",
         "JSON back-end: a crash injected before / in the middle of each of the 5 file writes (10 cases) on top of a "
         "complete earlier checkpoint, then restore: error, or exactly the old or the new state; SQLite back-end: an "
         "exception at each of 5 statements (user_version, DDL script, adapter, INSERT, commit), then the previous "
-        "checkpoint must load", "same (the effect list is finite and enumerated completely)", _c06_cases, _c06_check)
+        "checkpoint must load - also with a multi-MB previous checkpoint and with the writing process killed inside the "
+        "INSERT; fault sequences: an interrupted save followed by a complete save restores exactly the latest state",
+        "same (the effect list is finite and enumerated completely)", _c06_cases, _c06_check)
 
 
 # ================================================================================================ C01 / C05
@@ -504,10 +583,45 @@ def _c01_cases(tier, seed):
         yield {"lineup": _mixed_lineup(rnd, i), "E": rnd.choice([1, 2]), "nb": rnd.randint(3, 5), "seed": rnd.randrange(10 ** 6),
                "dims": rnd.choice([1, 2, 3]), "loss": rnd.choice([None, None, "msm", "fourier"]),
                "variant": ["twin", "ctor_seed", "verbose", "folder", "n_jobs", "rl"][i % 6]}
+    # boundary seed 0 with differing constructor seeds, and sampler OBJECTS reused by a second calibrator
+    yield {"lineup": [("halton", 3), ("best", 2), ("random", 2)], "E": 1, "nb": 4, "seed": 0, "dims": 2, "loss": None,
+           "variant": "ctor_seed"}
+    yield {"lineup": [("halton", 3), ("best", 2), ("rseq", 2)], "E": 1, "nb": 4, "seed": 0, "dims": 2, "loss": None,
+           "variant": "twin"}
+    for i in range(3 if tier == "quick" else 9):
+        yield {"lineup": _mixed_lineup(rnd, [3, 4, 8, 0, 2, 5, 6, 1, 7][i]), "E": 1, "nb": 4, "seed": rnd.randrange(10 ** 6),
+               "dims": 2, "loss": None, "variant": "reuse"}
+
+
+def _c01_reuse(case):
+    """The same sampler objects serve a first calibration, then a second one with the same seed: the second must equal
+    a run on fresh objects (a reseed erases everything a sampler kept from its previous life that depends on seeds)."""
+    samplers = [e2e.make_sampler(k, b, seed=3) for k, b in case["lineup"]]
+    fresh, _ = _run(case, case["seed"], ctor_seed=4)
+    out = []
+    for _life in range(2):
+        for smp in samplers:      # samplers that document an explicit reset() are reset between lives
+            if hasattr(smp, "reset"):
+                smp.reset()
+            if hasattr(smp, "_batch_id"):
+                smp._batch_id = 0   # noqa: SLF001  (CORS keeps a batch counter: a new life starts at 0)
+        cfg = {"E": case["E"], "dims": case.get("dims", 2), "seed": case["seed"], "N": 8}
+        cal, *_ = e2e.make_calibrator(cfg, model=e2e.pure_model, samplers=samplers)
+        with warnings.catch_warnings():
+            warnings.simplefilter("ignore")
+            with e2e.quiet():
+                cal.calibrate(case["nb"])
+        out.append(e2e.history(cal))
+    m = e2e.same_history(fresh, out[1])
+    if m:
+        return f"a second calibration re-using the sampler objects (same seed) differs from a run on fresh objects: {m}; line-up {case['lineup']}"
+    return None
 
 
 def _c01_check(reg, case):
     v = case["variant"]
+    if v == "reuse":
+        return _c01_reuse(case)
     with e2e.tmp_folder() as d:
         rl = v == "rl"
         if rl and any(k in ("pso", "cors", "gp") for k, _ in case["lineup"]):
@@ -550,17 +664,25 @@ def _compositions(n):
 def _c05_cases(tier, seed):
     rnd = random.Random(seed + 5)
     kinds = ALL9 if tier != "quick" else ["halton", "best", "pso", "cors", "xgb", "rseq"]
-    for i, _k in enumerate(kinds):
-        lineup = _mixed_lineup(rnd, ALL9.index(_k), n_extra=1)
-        n = 4
-        comps = [c for c in _compositions(n) if len(c) > 1]
-        chosen = comps if tier != "quick" else rnd.sample(comps, 3)
-        for comp in chosen:
-            nb = len(comp) - 1
-            masks = [tuple(j for j in range(nb) if (m >> j) & 1) for m in range(1 << nb)]
-            for mask in (masks if tier != "quick" else rnd.sample(masks, min(2, len(masks)))):
+    n = 6   # with two samplers every one of them runs three times: state carried across TWO of its own batches
+    for _k in kinds:
+        lineups = [[("halton", 3), (_k, rnd.randint(1, 3))]]
+        if _k == "pso":
+            lineups.append([("pso", 4), ("random", 2)])
+        for lineup in lineups:
+            if lineup[1][0] == "best":
+                lineup[1] = ("best", min(lineup[1][1], 3))
+            # every single cut position as a restore boundary, plus seeded multi-cut compositions
+            cuts = [[k, n - k] for k in range(1, n)]
+            chosen = [(c, [0]) for c in (cuts if tier != "quick" else rnd.sample(cuts, 3))]
+            comps = [c for c in _compositions(n) if len(c) > 2]
+            for comp in rnd.sample(comps, 2 if tier == "quick" else 12):
+                nb = len(comp) - 1
+                chosen.append((comp, [j for j in range(nb) if rnd.random() < 0.6]))
+                chosen.append((comp, []))            # plain repeated calibrate() calls on the live object
+            for comp, mask in chosen:
                 yield {"lineup": lineup, "E": 1, "nb": n, "seed": rnd.randrange(10 ** 6), "segments": comp,
-                       "restore": list(mask), "dims": 2}
+                       "restore": mask, "dims": 2}
 
 
 def _c05_check(reg, case):
@@ -575,7 +697,8 @@ def _c05_check(reg, case):
 
 
 StandIn("C05/resume", "C05",
-        "6 line-ups (Halton + one of halton/best/pso/cors/xgb/rseq + one more), 4 batches cut into 3 seeded compositions "
-        "with 2 seeded choices of which boundaries are checkpoint/restore instead of a second calibrate() call; history "
-        "compared bit-wise with the uninterrupted run", "9 line-ups x all 7 compositions of 4 x all boundary choices",
+        "7 two-sampler line-ups (Halton + one of halton/best/pso/cors/xgb/rseq, and pso + random), 6 batches (each sampler "
+        "runs three times): 3 seeded single cuts crossed by checkpoint/restore plus 2 seeded multi-cut compositions, each "
+        "with seeded restore boundaries and with plain repeated calibrate() calls; history compared bit-wise with the "
+        "uninterrupted run", "10 line-ups (all nine samplers), every single cut, 12 multi-cut compositions",
         _c05_cases, _c05_check)
